@@ -44,7 +44,7 @@ int main(int argc, char** argv)
   c13.stub_components = {"the clock (instants come from the simulated clock process)"};
   c13.assumptions = {"domain restrictions of the property implemented literally: no %% before H M S I k l s; %s only in local mode or a UTC process zone, ten-digit epochs",
                      "thinnest fit of the technique: no scheduler or I/O, the simulated element is the clock with its jump faults (DESIGN.md C13)"};
-  c13.quick_runs = 20000;
+  c13.quick_runs = 200000;
   c13.thorough_runs = 5000000;
   eng.props["C13"] = c13;
   bd::PropInfo c14;
@@ -59,7 +59,7 @@ int main(int argc, char** argv)
   c14.assumptions = {"single-threaded by design (the sink is only used by the backend thread)", "statements deliberately deleted are only those in files removed for the backup count; "
                      "the oracle demands an in-order subsequence, all statements when nothing may be deleted, and always the newest statement",
                      "after a clean 'w' restart earlier statements are no longer demanded"};
-  c14.quick_runs = 4000;
+  c14.quick_runs = 20000;
   c14.thorough_runs = 1000000;
   eng.props["C14"] = c14;
   bd::PropInfo c15 = c14;
